@@ -88,6 +88,10 @@ A(M("c17e-r5-autoclash-by-chain-number", "C17", CF, MERGED, "if (ignore_autoclas
 A(M("c17e-r5-autoclash-by-position-key", "C17", CF, MERGED, "if (ignore_autoclashes is True and (ri.chain, ri.number, ri.icode) == (rj.chain, rj.number, rj.icode)) or (", "option-filter", **R5))
 A(M("c17e-r5-autoclash-identity-silent", "C17", CF, MERGED, "if (ignore_autoclashes is True and ri is rj) or (", kind="silent", **R5))
 A(M("c17e-r5-same-name-by-element", "C17", CF, "require_same_atom_name is True and ai.name != aj.name", "require_same_atom_name is True and ai.name[0] != aj.name[0]", "option-filter", **R5))
+# collection: atom typing is decided on the evaluated structure (hydrogens named HO.. / HN.. next to typed atoms), not on the text of AtomType.matches
+A(M("c17e-r5-matches-contains", "C17", CF, "return atom.name.strip().startswith(self.value)", "return self.value in atom.name", ["clash-definition", "collection"], **R5))
+A(M("c17e-r5-matches-hydrogens-too", "C17", CF, "return atom.name.strip().startswith(self.value)", "return atom.name.strip().lstrip(\"H\").startswith(self.value)", ["clash-definition", "collection"], **R5))
+A(M("c17e-r5-matches-first-letter-silent", "C17", CF, "return atom.name.strip().startswith(self.value)", "name = atom.name.strip()\n        return name[:1] == self.value", kind="silent", **R5))
 # occupancy-rule: a sum close to but not 1 (0.5 + 0.49) is not 1
 A(M("c17e-r5-occupancy-tolerance-wide", "C17", CF, "math.isclose(sum_occupancies, 1.0)", "abs(sum_occupancies - 1.0) < 0.05", "occupancy-rule", **R5))
 A(M("c17e-r5-occupancy-rounded", "C17", CF, "math.isclose(sum_occupancies, 1.0)", "round(sum_occupancies, 1) == 1.0", "occupancy-rule", **R5))
